@@ -197,3 +197,42 @@ def rule_limits_wired(ctx):
 
 
 RULES += [("C10.3", rule_alloc_bounded), ("C10.4", rule_limits_wired)]
+
+
+def rule_wire_indexed_buffers(ctx):
+    R = "C10.5"
+    ctx.rule(R, "slices bounded by a wire-decoded length: when buf[..n] / buf[a..n] is taken with n decoded from the wire and buf is a fixed-size buffer, the buffer must be at least as large as the largest value of the decoded integer type (otherwise a peer-chosen length panics the slice)")
+    rs, _ = roots(ctx)
+    cl = getattr(ctx, "_c10_closure", None) or ctx.cg.closure(rs, skip)
+    MAXV = {"u8::from_le_bytes": 255, "u16::from_le_bytes": 65535, "u16::from_be_bytes": 65535, "u32::from_le_bytes": 2 ** 32 - 1, "u32::from_be_bytes": 2 ** 32 - 1}
+    n = 0
+    for f in cl:
+        T = ctx.T(f)
+        for c in T.calls():
+            if c["q"] not in ("std::ops::Index::index", "std::ops::IndexMut::index_mut"):
+                continue
+            a = T.args_of(c)
+            if len(a) < 2 or a[1][0] != "agg" or not a[1][1].startswith("std::ops::Range"):
+                continue
+            ends = [v for k, v in a[1][3] if k == "end"]
+            if not ends:
+                continue
+            wire = [x[1] for x in subterms(ends[0]) if x[0] == "call" and x[1] in MAXV]
+            if not wire:
+                continue
+            buf = a[0]
+            size = None
+            for x in subterms(buf):
+                if x[0] == "call" and x[1] == "std::vec::from_elem" and x[2][1][0] == "const":
+                    size = x[2][1][1]
+            if size is None:
+                continue   # not a fixed-size buffer: covered by the dominating-bound rule C10.3 / reviewed table
+            n += 1
+            need = max(MAXV[w] for w in wire)
+            ok = size >= need
+            ctx.ob(R, "slice in %s" % f.qname.split("::", 1)[-1][-50:], ok, "buffer of %d bytes sliced by a %s length (max %d)" % (size, wire[0].split("::")[0], need) if ok else
+                   "a %d-byte buffer is sliced by a length decoded with %s (up to %d): lengths above the buffer size panic" % (size, wire[0], need), f.loc(c["t"].get("ln")))
+    ctx.floor(R, "wire-length slices of fixed buffers", n, 2)
+
+
+RULES += [("C10.5", rule_wire_indexed_buffers)]
